@@ -8,7 +8,7 @@ RULE = ("tls.VerifySignature on the full 256x256 grid of (hash, signature) codes
         "lengths, wrong identifier octets, inner extra octets, trailing octets, every prefix) both through VerifySignature and straight into the asn1 fork; "
         "typed nil and zero-valued key pointers and foreign Go types (also through NewSignatureVerifier); NewSignatureVerifier on the key set, synthetic RSA moduli 1..8192 bits, non-key values, opt-in on/off; genuine SCTs/STHs "
         "with 24 resp. 13 single-field mutations each, SerializeSCT/STHSignatureInput against a hand-written RFC 6962 layout (2^24-1 / 2^24 boundary in the thorough tier); "
-        "ctutil.VerifySCT (plain, embedded) and LogInfo.VerifySCTSignature on the testdata chains for every key x opt-in x 8 variants, the expected entry derived independently "
+        "ctutil.VerifySCT (plain, embedded) and LogInfo.VerifySCTSignature on the testdata chains for every key x opt-in x 8 variants, on generated pre-issuer chains with the poison after / before / between the authority key identifier and the SAN (identifier last included), and on generated final certificates with an embedded SCT whose validity lies in 1949/1950 and 2049/2050/2051, the expected entry derived independently "
         "(standard-library X.509 + own extension stripping); nil entry pointers; "
         "NewFromSignedJSON with valid/invalid documents and signatures; WitnessVerifier.VerifySignature on cosigned STHs with 0 (nil/empty), 1, 2, 3, 5 witness signatures, each genuine / foreign / corrupted / other algorithm code / garbage at every position. The expected verdict of every case is computed by the harness from the standard library "
         "primitive on (key, digest, r, s). non-trivial = distinct lines whose implementation answer is not `err`")
